@@ -288,7 +288,54 @@ Section GroupBy.
     pose proof (sum_over_groups (fun _ => true) f l (fun _ _ _ => eq_refl)) as H.
     rewrite filter_true in H. exact H.
   Qed.
+
 End GroupBy.
 
 Arguments NoDupK {K} leb ks.
 Arguments SortedK {K} leb l.
+
+(* Grouped tables: [map mk (group_keys key leb l)] whose rows carry their key ([kf]) and an
+   aggregate [h] of their members. *)
+Lemma sum_by_filter_sumZ {B} (h : B -> Z) (q : B -> bool) (l : list B) :
+  sum_by h (filter q l) = sumZ (map (fun k => if q k then h k else 0) l).
+Proof.
+  induction l as [|x t IH]; [reflexivity|]. cbn [filter map sumZ].
+  destruct (q x); [rewrite sum_by_cons|]; rewrite IH; lia.
+Qed.
+Lemma filter_map_swap {B C} (q : C -> bool) (g : B -> C) (l : list B) :
+  filter q (map g l) = map g (filter (fun x => q (g x)) l).
+Proof.
+  induction l as [|x t IH]; [reflexivity|]. cbn. destruct (q (g x)); cbn; rewrite IH; reflexivity.
+Qed.
+Lemma sum_by_map_comp {B C} (h : C -> Z) (g : B -> C) (l : list B) :
+  sum_by h (map g l) = sum_by (fun x => h (g x)) l.
+Proof. unfold sum_by. rewrite map_map. reflexivity. Qed.
+
+Section GroupedTable.
+  Context {A K R : Type}.
+  Variable key : A -> K.
+  Variable leb : K -> K -> bool.
+  Hypothesis leb_total : forall a b, leb a b = true \/ leb b a = true.
+  Hypothesis leb_trans : forall a b c, leb a b = true -> leb b c = true -> leb a c = true.
+  Variable mk : K -> R.
+  Variable kf : R -> K.
+
+  Lemma grouped_table_sum (h : R -> Z) (f : A -> Z) (p : K -> bool) l :
+    (forall k, kf (mk k) = k) ->
+    (forall k, h (mk k) = sum_by f (members key leb l k)) ->
+    (forall a b, eqk leb a b = true -> p a = p b) ->
+    sum_by h (filter (fun y => p (kf y)) (map mk (group_keys key leb l)))
+    = sum_by f (filter (fun x => p (key x)) l).
+  Proof.
+    intros Hk Hh Hp. rewrite filter_map_swap, sum_by_map_comp, sum_by_filter_sumZ.
+    rewrite <- (sum_over_groups key leb leb_total leb_trans p f l Hp).
+    f_equal. apply map_ext. intros k. rewrite Hk, Hh. reflexivity.
+  Qed.
+  Lemma grouped_table_total (h : R -> Z) (f : A -> Z) l :
+    (forall k, h (mk k) = sum_by f (members key leb l k)) ->
+    sum_by h (map mk (group_keys key leb l)) = sum_by f l.
+  Proof.
+    intros Hh. rewrite sum_by_map_comp. rewrite <- (sum_all_groups key leb leb_total leb_trans f l).
+    unfold sum_by. f_equal. apply map_ext. intros k. apply Hh.
+  Qed.
+End GroupedTable.
